@@ -248,7 +248,7 @@ fn run_case<C: Cx>(args: &Args, case: u64, rep: &mut Report, sig_counts: &mut BT
         rep.extra("nesting_cycle_probe_returned_within_2s", json!(probe_returned));
         if log2 >= 40 && !probe_returned {
             rep.violation(
-                &format!("C31:query-does-not-return:nested-group-cycle:{}", if any_conditions { "with-conditions" } else { "without-conditions" }),
+                "C31:query-does-not-return:nested-group-cycle",
                 format!(
                     "after concurrent Add operations (each valid at its own dependencies) the merged state nests groups in a cycle; members({g}) recurses without a visited set up to depth 1000: ~2^{log2} recursive visits, the query does not return"
                 ),
